@@ -1,13 +1,17 @@
 import RpmVerif.Lemmas.RpmValid
 import RpmVerif.Lemmas.BuilderSlots
+import RpmVerif.Lemmas.BuilderSlotTypes
 import RpmVerif.Lemmas.Cpio
+import RpmVerif.Lemmas.RpmCpio
+import RpmVerif.Gen.AssetTagTypes
 import RpmVerif.Props.C06
 import RpmVerif.Lemmas.SignE
 /-!
 # C09 — emitted packages satisfy rpm's structural rules
 
-Spec: `Spec/RpmValid.lean` (`LeadValid`, `HeaderValid`, `SigPadding`, `CompressorMagic`, `RpmlibDeclared`,
-`CpioValid`, `PackageValid`).  Model: `Model/FromEntries.lean`, `Model/Builder.lean`, `Model/Cpio.lean`.
+Spec: `Spec/RpmValid.lean` (`LeadValid`, `HeaderValid`, `SigLimits`, `TagTypesOk`, `SigPadding`, `CompressorMagic`, `PayloadFlagsOk`,
+`RpmlibDeclared`, `CpioValid`, `PackageValid`, `ForeignValid`), `Spec/RpmTagTypes.lean` (rpm's tag table).
+Model: `Model/FromEntries.lean`, `Model/Builder.lean`, `Model/Cpio.lean`.
 
 Theorems (all for ALL inputs of the stated shape; no bound on sizes, counts or lengths):
 
@@ -19,13 +23,26 @@ Theorems (all for ALL inputs of the stated shape; no bound on sizes, counts or l
   `prepare_data` can emit (all 102 slots) is non-empty and carries a tag ≥ 100 (this is where fix 024ca91
   matters: `scrProg` emits nothing for an empty interpreter list).
 * `build_header_valid` (`mainHeader_valid`) — the main header of every valid configuration is valid.
+* `slots_types` / `build_tagtypes_valid` — every slot carries data of the type rpm's tag table gives its tag (`hdrchkTagType`);
+  `asset_tag_types_agree` — the transcribed table agrees with the (tag, type) pairs scraped from the rpm-built asset packages.
 * `sign_clear_valid` — every signature header built by `build`, `sign`, `build_and_sign`,
-  `clear_signatures` is valid; a sign / clear history only ever replaces the signature header by such a one.
+  `clear_signatures` is valid; a sign / clear history only ever replaces the signature header by such a one;
+  `sig_limits_valid` — it has at most 4 of the 32 index entries and at most 64 MiB of data rpm allows in a signature header.
 * `lead_valid`, `sigPadding_written` — lead fields; zero padding to 8 after the signature header.
-* `rpmlib_declared`, `build_rpmlib_valid` — the rpmlib() features used are declared (fix 9787c3c: xz, bzip2).
+* `build_flags_valid` — PAYLOADFLAGS is a plain STRING.
+* rpmlib(): `rpmlib_declared`, `build_struct_features_declared` — the nine STRUCTURAL features (compressor — fix 9787c3c: xz, bzip2 —,
+  capabilities, large files, compressed file names, file digests, "./" prefix) are declared for every configuration.
+  The four CONTENT features rpmbuild derives from dependencies and scriptlets (TildeInVersions, CaretInVersions, RichDependencies,
+  ScriptletInterpreterArgs) are declared since the fix of builder.rs (`Bld.versionHas`, `usesRichDeps`, `usesInterpArgs`, `pushFeature`):
+  `content_declared`; `evrHasChar_built`, `hasRichDep_built`, `hasInterpArgs_built` express rpm's three tests on the built header in
+  terms of the configuration, `versionHas_of_header` / `usesRichDeps_of_header` / `usesInterpArgs_of_header` show that they imply the
+  builder's own tests (the requirements the builder adds use none of the features: `allRequires_cases`, `contentDeps_clean`).
+  `build_rpmlib_valid` — all thirteen features, for EVERY configuration: `∀ x pre, RpmlibDeclared (C06.hdrOf x) pre`.
 * `cpioCheck_archiveOf`, `cpioCheck_stripped`, `headerFiles_built`, `payload_valid_std`, `payload_valid_large`
-  — the archive the builder writes passes the cpio rules against the header built from the same files
-  (names "." ++ dir ++ base name — guaranteed by `add_data` since fix cbb69e5, C17 `add_data_cpio_name`).
+  — the archive the builder writes passes the cpio rules — read by the Spec's OWN newc reader, a transcription of rpm's
+  `rpmcpioHeaderRead` (`RpmValid.readEntry`; `Lemmas/RpmCpio.lean`), not by the model of rpm-rs' reader — against the header built
+  from the same files (names "." ++ dir ++ base name — guaranteed by `add_data` since fix cbb69e5, C17 `add_data_cpio_name`);
+  `plus_field_rejected` — the two readers differ where they should (`+000000b`).
 * `compressor_magic_valid` — the header names the compressor; the codec crates enter through `CodecMagic`
   (a compressed stream starts with its format's magic; exercised on every generated package, not proved).
 * `build_valid` — the whole statement: write → parse gives back the built package and `PackageValid` holds.
@@ -33,7 +50,8 @@ Theorems (all for ALL inputs of the stated shape; no bound on sizes, counts or l
   the model of `SignatureHeaderBuilder::build` (`Sign.sigBuilderBuild`: parse, `match` on the algorithm — table scraped from the
   source by tools/gen/sig_algs.py —, encode), and every arm selects RPMSIGTAG_RSA / RPMSIGTAG_DSA (`Sign.legacyTagOf_mem_range`).
 * `history_valid` — a valid package (built here or by rpm) stays valid under every non-empty history of
-  `sign` / `clear_signatures` calls: they replace the signature header by a valid one and touch nothing else.
+  `sign` / `clear_signatures` calls: they replace the signature header by a valid one and touch nothing else;
+  `history_foreign_valid` — the same for `ForeignValid`, the rules rpm-built packages satisfy (`fPkg_foreign_valid`: satisfiable).
 * `count_zero_rejected`, `xz_undeclared_rejected` — the two repaired defects are violations of the spec.
 -/
 namespace RpmVerif.C09
@@ -252,7 +270,7 @@ structure SigsOk (sigs : List (Nat × Bytes × Bytes)) (sha : Bytes) : Prop wher
   b64 : ∀ s ∈ sigs, StrOk s.2.2
   count : sigs.length < 4294967296
   shaOk : StrOk sha
-  size : (signatureHeader sigs (some sha)).store.length < 268435456
+  size : (signatureHeader sigs (some sha)).store.length ≤ 67108864   -- rpm's limit for signature headers (`hdrblobRead`: 64 MiB)
 
 /-- the records `SignatureHeaderBuilder::build` hands to `from_entries` -/
 def sigRecs (sigs : List (Nat × Bytes × Bytes)) (sha : Bytes) : List (Nat × IndexData) :=
@@ -267,7 +285,7 @@ theorem signatureHeader_eq (sigs : List (Nat × Bytes × Bytes)) (sha : Bytes) :
 /-- tags 278 / 267|268 / 273 are distinct and legal, the OPENPGP array and the legacy signature are non-empty -/
 theorem sigRecs_valid {sigs : List (Nat × Bytes × Bytes)} {sha : Bytes} (ok : SigsOk sigs sha) :
     RecsValid (sigRecs sigs sha) 62 ∧ ∀ r ∈ sigRecs sigs sha, r.1 < 4294967296 := by
-  have hsize := ok.size
+  have hsize : (signatureHeader sigs (some sha)).store.length < 268435456 := Nat.lt_of_le_of_lt ok.size (by decide)
   rw [signatureHeader_eq] at hsize
   unfold sigRecs at hsize ⊢
   cases hl : sigs.getLast? with
@@ -321,53 +339,24 @@ theorem sign_clear_valid {sigs : List (Nat × Bytes × Bytes)} {sha : Bytes} (ok
     HeaderValid 62 (signatureHeader sigs (some sha)) := by
   rw [signatureHeader_eq]; exact fromEntries_valid (sigRecs_valid ok).1
 
+/-- **sig-limits**: a signature header built by `SignatureHeaderBuilder::build` has at most four index entries (region, OPENPGP,
+RSA | DSA, SHA256) — rpm allows 32 — and its store is within the 64 MiB rpm allows -/
+theorem sig_limits_valid {sigs : List (Nat × Bytes × Bytes)} {sha : Bytes} (ok : SigsOk sigs sha) :
+    SigLimits (signatureHeader sigs (some sha)) := by
+  refine ⟨?_, ok.size⟩
+  rw [signatureHeader_eq]
+  have : (fromEntries (sigRecs sigs sha) SigTag.HEADER_SIGNATURES).nEntries = (sigRecs sigs sha).length + 1 := by
+    simp [fromEntries]
+  rw [this]
+  unfold sigRecs
+  cases sigs.getLast? <;> simp
+
 /-- a record list accepted by `fromEntries_valid` whose tags fit 32 bits also re-parses to itself (C06 `RecsOk`) -/
 theorem recsOk_of_valid {recs : List (Nat × IndexData)} {rt : Nat} (v : RecsValid recs rt)
     (ht : ∀ r ∈ recs, r.1 < 4294967296) (hrt : rt < 4294967296) : RecsOk recs rt :=
   ⟨v.canon, ht, hrt, by have := v.count; omega, by have := v.size; omega⟩
 
-/-! ## lead -/
-
-/-- `Lead::new` writes major 3, type 0 (binary), signature type 5 -/
-theorem lead_valid (name : Bytes) : LeadValid (leadNew name) := ⟨rfl, Or.inl rfl, rfl⟩
-
-/-! ## rpmlib() features -/
-
-theorem rpmlibName_eq (f v : Bytes) : (rpmlib f v).name = rpmlibName f := rfl
-
-theorem mem_names {c : Cfg} {f v : Bytes} (h : rpmlib f v ∈ allRequires c) :
-    rpmlibName f ∈ (allRequires c).map (·.name) := by
-  rw [← rpmlibName_eq f v]; exact List.mem_map_of_mem h
-
-/-- **rpmlib_declared**: the requirements the builder writes always contain the three base features, the
-payload compressor's feature for zstd / xz / bzip2 (fix 9787c3c added xz and bzip2), `FileCaps` when a
-file has capabilities and `LargeFiles` in large-file mode -/
-theorem rpmlib_declared (c : Cfg) :
-    rpmlibName fCompressedFileNames ∈ (allRequires c).map (·.name) ∧
-    rpmlibName fFileDigests ∈ (allRequires c).map (·.name) ∧
-    rpmlibName fPayloadFilesHavePrefix ∈ (allRequires c).map (·.name) ∧
-    (∀ l, c.compression = .zstd l → rpmlibName fPayloadIsZstd ∈ (allRequires c).map (·.name)) ∧
-    (∀ l, c.compression = .xz l → rpmlibName fPayloadIsXz ∈ (allRequires c).map (·.name)) ∧
-    (∀ l, c.compression = .bzip2 l → rpmlibName fPayloadIsBzip2 ∈ (allRequires c).map (·.name)) ∧
-    (usesCaps c = true → rpmlibName fFileCaps ∈ (allRequires c).map (·.name)) ∧
-    (usesLargeFiles c = true → rpmlibName fLargeFiles ∈ (allRequires c).map (·.name)) := by
-  refine ⟨?_, ?_, ?_, ?_, ?_, ?_, ?_, ?_⟩
-  · exact mem_names (v := [51, 46, 48, 46, 52, 45, 49]) (by unfold allRequires; simp [fCompressedFileNames])
-  · exact mem_names (v := [52, 46, 54, 46, 48, 45, 49]) (by unfold allRequires; simp [fFileDigests])
-  · exact mem_names (v := [52, 46, 48, 45, 49]) (by unfold allRequires; simp [fPayloadFilesHavePrefix])
-  · intro l hl
-    exact mem_names (v := [53, 46, 52, 46, 49, 56, 45, 49]) (by unfold allRequires; simp [hl, fPayloadIsZstd])
-  · intro l hl
-    exact mem_names (v := [53, 46, 50, 45, 49]) (by unfold allRequires; simp [hl, fPayloadIsXz])
-  · intro l hl
-    exact mem_names (v := [51, 46, 48, 46, 53, 45, 49]) (by unfold allRequires; simp [hl, fPayloadIsBzip2])
-  · intro h
-    exact mem_names (v := [52, 46, 54, 46, 49, 45, 49]) (by unfold allRequires; simp [h, fFileCaps])
-  · intro h
-    exact mem_names (v := [52, 46, 49, 50, 46, 48, 45, 49]) (by unfold allRequires; simp [h, fLargeFiles])
-
-
-/-! ### the validator's lookups on the built header -/
+/-! ## the validator's lookups on the built header -/
 
 theorem find_of_slot {x : Ctx} {s : Slot} (hs : s ∈ slots) {d : IndexData} (hd : s.2 x = some d) :
     find (C06.hdrOf x) s.1 = some d := by
@@ -389,21 +378,197 @@ theorem find_slot_at {x : Ctx} (i : Nat) {tag : Nat} (f : Ctx → Option IndexDa
     {t : Nat} (ht : t = tag) : find (C06.hdrOf x) t = f x := by
   subst ht; exact find_slot (s := (t, f)) (C06.mem_slot hi)
 
-theorem allRequires_ne (c : Cfg) : allRequires c ≠ [] := by
-  unfold allRequires; simp
+/-- a tag the builder has no slot for is absent from the built header -/
+theorem find_no_slot {x : Ctx} {t : Nat} (ht : t ∉ slots.map (·.1)) (hrt : IndexTag.RPMTAG_HEADERIMMUTABLE ≠ t) :
+    find (C06.hdrOf x) t = none := by
+  have : ∀ r ∈ recordsOf x, r.1 ≠ t := fun r hr e =>
+    ht (e ▸ (C06.filterMap_tags_sublist slots x).subset (List.mem_map_of_mem hr))
+  simp only [find, C06.hdrOf, fromEntries_find_none hrt this, Option.map_none]
 
-/-- **the built header declares every rpmlib() feature it uses** -/
-theorem build_rpmlib_valid (x : Ctx) (pre : Bool) : RpmlibDeclared (C06.hdrOf x) pre := by
+theorem strsAt_none {h : Header} {t : Nat} (hf : find h t = none) : strsAt h t = [] := by
+  simp only [strsAt, strsOf, hf, Option.getD_none]
+
+theorem strsAt_depNames {x : Ctx} {t : Nat} {g : Ctx → List Dep} {al : Bool}
+    (hf : find (C06.hdrOf x) t = depNames g al x) : strsAt (C06.hdrOf x) t = (g x).map (·.name) := by
+  unfold strsAt strsOf; rw [hf]; unfold depNames
+  by_cases h : (!al && (g x).isEmpty) = true
+  · rw [if_pos h]
+    simp only [Bool.and_eq_true, Bool.not_eq_true', List.isEmpty_iff] at h
+    simp [h.2]
+  · rw [if_neg h]; rfl
+
+theorem strsAt_depVersions {x : Ctx} {t : Nat} {g : Ctx → List Dep} {al : Bool}
+    (hf : find (C06.hdrOf x) t = depVersions g al x) : strsAt (C06.hdrOf x) t = (g x).map (·.version) := by
+  unfold strsAt strsOf; rw [hf]; unfold depVersions
+  by_cases h : (!al && (g x).isEmpty) = true
+  · rw [if_pos h]
+    simp only [Bool.and_eq_true, Bool.not_eq_true', List.isEmpty_iff] at h
+    simp [h.2]
+  · rw [if_neg h]; rfl
+
+/-- the interpreter list of a scriptlet as it is written: nothing for no scriptlet, no `prog` call, or an empty list -/
+def progOf (s : Option Scriptlet) : List Bytes := ((s.bind (·.prog)).getD [])
+
+theorem strsAt_scrProg {x : Ctx} {t : Nat} {g : Cfg → Option Scriptlet}
+    (hf : find (C06.hdrOf x) t = scrProg g x) : strsAt (C06.hdrOf x) t = progOf (g x.c) := by
+  unfold strsAt strsOf progOf; rw [hf]; unfold scrProg
+  cases g x.c with
+  | none => rfl
+  | some s =>
+    cases hp : s.prog with
+    | none => simp [hp]
+    | some p =>
+      simp only [Option.bind_some, hp]
+      by_cases h : p.isEmpty = true
+      · rw [if_pos h]; simp only [List.isEmpty_iff] at h; simp [h]
+      · rw [if_neg h]
+
+/-! ## lead -/
+
+/-- `Lead::new` writes major 3, type 0 (binary), signature type 5 -/
+theorem lead_valid (name : Bytes) : LeadValid (leadNew name) := ⟨rfl, Or.inl rfl, rfl⟩
+
+/-! ## tag types: every entry of the built main header has the data type rpm's tag table demands -/
+
+theorem body_fromEntries_mem {recs : List (Nat × IndexData)} {rt : Nat} {e : Entry}
+    (he : e ∈ body (fromEntries recs rt)) : (e.tag, e.data) ∈ recs := by
+  simp only [body, fromEntries, List.drop_succ_cons, List.drop_zero] at he
+  have hl := layout_tags (recs.mergeSort (fun a b => decide (a.1 ≤ b.1))) []
+  have hmm := List.mem_map_of_mem (f := fun e => (e.tag, e.data)) he
+  rw [hl] at hmm; exact List.mem_mergeSort.mp hmm
+
+attribute [local irreducible] always whenFiles optS in
+/-- **every one of the 102 slots emits data of the type rpm's tag table gives its tag** (`hdrchkTagType`): STRING for the
+scalar texts, I18NSTRING for summary / description / group, STRING_ARRAY for the name / version / file-name arrays and the
+interpreter lists, INT16 for modes and rdevs, INT32 for flags / times / sizes / indexes, INT64 for the large-file sizes -/
+theorem slots_types : ∀ s ∈ slots, SlotTypeOk s := by
+  unfold slots
+  iterate 19 (refine forall_append ?_ ?_)
+  · repeat (refine forall_cons ?_ ?_; rotate_left)
+    exact forall_nil
+    all_goals first
+      | exact slotOk 6 (ty_always fun _ => rfl) (by decide)
+      | exact slotOk 8 (ty_always fun _ => rfl) (by decide)
+      | exact slotOk 9 (ty_always fun _ => rfl) (by decide)
+      | exact slotOk 4 (ty_always fun _ => rfl) (by decide)
+      | exact slotOk 8 (ty_whenFiles fun _ => rfl) (by decide)
+      | exact slotOk 4 (ty_whenFiles fun _ => rfl) (by decide)
+      | exact slotOk 3 (ty_whenFiles fun _ => rfl) (by decide)
+      | exact slotOk 6 (ty_optS _) (by decide)
+      | exact slotOk 5 (by slot_ty_cond) (by decide)
+      | exact slotOk 4 (by slot_ty_cond) (by decide)
+      | exact slotOk 8 (by slot_ty_cond) (by decide)
+  · exact depSlots_ty _ _ (by decide) (by decide) (by decide)
+  · repeat (refine forall_cons ?_ ?_; rotate_left)
+    exact forall_nil
+    all_goals first
+      | exact slotOk 8 (ty_always fun _ => rfl) (by decide)
+      | exact slotOk 4 (ty_always fun _ => rfl) (by decide)
+      | exact slotOk 6 (ty_compMap _) (by decide)
+      | exact slotOk 8 (by slot_ty_cond) (by decide)
+      | exact slotOk 4 (by slot_ty_cond) (by decide)
+  · exact depSlots_ty _ _ (by decide) (by decide) (by decide)
+  · exact depSlots_ty _ _ (by decide) (by decide) (by decide)
+  · exact depSlots_ty _ _ (by decide) (by decide) (by decide)
+  · exact depSlots_ty _ _ (by decide) (by decide) (by decide)
+  · exact depSlots_ty _ _ (by decide) (by decide) (by decide)
+  · exact depSlots_ty _ _ (by decide) (by decide) (by decide)
+  · exact depSlots_ty _ _ (by decide) (by decide) (by decide)
+  · exact scriptSlots_ty _ (by decide) (by decide) (by decide)
+  · exact scriptSlots_ty _ (by decide) (by decide) (by decide)
+  · exact scriptSlots_ty _ (by decide) (by decide) (by decide)
+  · exact scriptSlots_ty _ (by decide) (by decide) (by decide)
+  · exact scriptSlots_ty _ (by decide) (by decide) (by decide)
+  · exact scriptSlots_ty _ (by decide) (by decide) (by decide)
+  · exact scriptSlots_ty _ (by decide) (by decide) (by decide)
+  · exact scriptSlots_ty _ (by decide) (by decide) (by decide)
+  · exact scriptSlots_ty _ (by decide) (by decide) (by decide)
+  · exact forall_cons (slotOk 6 (ty_optS _) (by decide)) (forall_cons (slotOk 6 (ty_optS _) (by decide)) (forall_cons (slotOk 6 (ty_optS _) (by decide)) (forall_cons (slotOk 6 (ty_optS _) (by decide)) (forall_cons (slotOk 6 (ty_optS _) (by decide)) forall_nil))))
+
+/-- **tag-type**: the main header of EVERY configuration passes rpm's `hdrchkTagType` -/
+theorem build_tagtypes_valid (x : Ctx) : TagTypesOk (C06.hdrOf x) := by
+  intro e he
+  have hr := body_fromEntries_mem he
+  simp only [recordsOf, List.mem_filterMap] at hr
+  obtain ⟨s, hs, hm⟩ := hr
+  cases h : s.2 x with
+  | none => simp [h] at hm
+  | some d =>
+    simp only [h, Option.map_some, Option.some.injEq, Prod.mk.injEq] at hm
+    obtain ⟨h1, h2⟩ := hm
+    rw [← h1, ← h2]; exact slots_types s hs x d h
+
+/-- the transcribed tag table agrees with every (tag, type) pair found in the main headers of the rpm-built packages of
+/repo/test_assets (scraped on every run, `Gen.assetTagTypes`): exactly — except that rpm writes a lone interpreter as STRING under
+the `*PROG` tags its table lists as STRING_ARRAY -/
+theorem asset_tag_types_agree : ∀ p ∈ Gen.assetTagTypes,
+    tagType? p.1 = some p.2 ∨ (p.1 ∈ progTags ∧ p.2 = 6 ∧ tagType? p.1 = some 8) := by decide +kernel
+
+/-! ## PAYLOADFLAGS -/
+
+/-- **payload-flags**: PAYLOADFLAGS is written as a plain STRING (the level text), next to PAYLOADCOMPRESSOR -/
+theorem build_flags_valid (x : Ctx) : PayloadFlagsOk (C06.hdrOf x) := by
+  have hfl := find_slot_at (x := x) 45 (fun x => x.c.compression.name.map fun p => .str p.2) rfl (t := tPAYLOADFLAGS) rfl
+  unfold PayloadFlagsOk
+  rw [hfl]
+  cases x.c.compression.name <;> trivial
+
+/-! ## rpmlib() features -/
+
+theorem rpmlibName_eq (f v : Bytes) : (rpmlib f v).name = rpmlibName f := rfl
+
+theorem mem_names {c : Cfg} {f v : Bytes} (h : rpmlib f v ∈ baseRequires c) :
+    rpmlibName f ∈ (allRequires c).map (·.name) := by
+  rw [← rpmlibName_eq f v]; exact List.mem_map_of_mem ((C06.base_prefix_all c).subset h)
+
+/-- **rpmlib_declared**: the requirements the builder writes always contain the three base features, the
+payload compressor's feature for zstd / xz / bzip2 (fix 9787c3c added xz and bzip2), `FileCaps` when a
+file has capabilities and `LargeFiles` in large-file mode -/
+theorem rpmlib_declared (c : Cfg) :
+    rpmlibName fCompressedFileNames ∈ (allRequires c).map (·.name) ∧
+    rpmlibName fFileDigests ∈ (allRequires c).map (·.name) ∧
+    rpmlibName fPayloadFilesHavePrefix ∈ (allRequires c).map (·.name) ∧
+    (∀ l, c.compression = .zstd l → rpmlibName fPayloadIsZstd ∈ (allRequires c).map (·.name)) ∧
+    (∀ l, c.compression = .xz l → rpmlibName fPayloadIsXz ∈ (allRequires c).map (·.name)) ∧
+    (∀ l, c.compression = .bzip2 l → rpmlibName fPayloadIsBzip2 ∈ (allRequires c).map (·.name)) ∧
+    (usesCaps c = true → rpmlibName fFileCaps ∈ (allRequires c).map (·.name)) ∧
+    (usesLargeFiles c = true → rpmlibName fLargeFiles ∈ (allRequires c).map (·.name)) := by
+  refine ⟨?_, ?_, ?_, ?_, ?_, ?_, ?_, ?_⟩
+  · exact mem_names (v := [51, 46, 48, 46, 52, 45, 49]) (by unfold baseRequires; simp [fCompressedFileNames])
+  · exact mem_names (v := [52, 46, 54, 46, 48, 45, 49]) (by unfold baseRequires; simp [fFileDigests])
+  · exact mem_names (v := [52, 46, 48, 45, 49]) (by unfold baseRequires; simp [fPayloadFilesHavePrefix])
+  · intro l hl
+    exact mem_names (v := [53, 46, 52, 46, 49, 56, 45, 49]) (by unfold baseRequires; simp [hl, fPayloadIsZstd])
+  · intro l hl
+    exact mem_names (v := [53, 46, 50, 45, 49]) (by unfold baseRequires; simp [hl, fPayloadIsXz])
+  · intro l hl
+    exact mem_names (v := [51, 46, 48, 46, 53, 45, 49]) (by unfold baseRequires; simp [hl, fPayloadIsBzip2])
+  · intro h
+    exact mem_names (v := [52, 46, 54, 46, 49, 45, 49]) (by unfold baseRequires; simp [h, fFileCaps])
+  · intro h
+    exact mem_names (v := [52, 46, 49, 50, 46, 48, 45, 49]) (by unfold baseRequires; simp [h, fLargeFiles])
+
+theorem allRequires_ne (c : Cfg) : allRequires c ≠ [] := by
+  intro h
+  have hp := C06.base_prefix_all c
+  rw [h, List.prefix_nil] at hp
+  revert hp; unfold baseRequires; simp
+
+/-- REQUIRENAME of the built header = the names of `allRequires`, in order -/
+theorem requireNames_built (x : Ctx) : strsAt (C06.hdrOf x) tREQUIRENAME = (allRequires x.c).map (·.name) :=
+  strsAt_depNames (find_slot_at (x := x) 52 (depNames (fun x => allRequires x.c) false) rfl (t := tREQUIRENAME) rfl)
+
+/-- **the built header declares every STRUCTURAL rpmlib() feature it uses** (compressor, capabilities, large files, compressed
+file names, file digests, "./" prefix) — for every configuration -/
+theorem build_struct_features_declared (x : Ctx) (pre : Bool) :
+    ∀ f ∈ structFeatures (C06.hdrOf x) pre, rpmlibName f ∈ strsAt (C06.hdrOf x) tREQUIRENAME := by
   obtain ⟨b1, b2, b3, hz, hx, hb, hcaps, hlarge⟩ := rpmlib_declared x.c
-  have hreq : strsOf (C06.hdrOf x) tREQUIRENAME = some ((allRequires x.c).map (·.name)) := by
-    have := find_slot_at (x := x) 52 (depNames (fun x => allRequires x.c) false) rfl (t := tREQUIRENAME) rfl
-    simp only [strsOf, this, depNames, Bool.not_false, Bool.true_and, List.isEmpty_iff, allRequires_ne, if_false]
   have hcomp := find_slot_at (x := x) 44 (fun x => x.c.compression.name.map fun p => .str p.1) rfl (t := tPAYLOADCOMPRESSOR) rfl
   have hfc := find_slot_at (x := x) 37 (fun x => if x.c.files.isEmpty || !usesCaps x.c then none else some (.strArray (x.c.files.map (fun f => f.caps.getD [])))) rfl (t := tFILECAPS) rfl
   have hlf := find_slot_at (x := x) 19 (fun x => if x.c.files.isEmpty || !usesLargeFiles x.c then none else some (.int64 (x.c.files.map (·.size)))) rfl (t := tLONGFILESIZES) rfl
   intro f hf
-  rw [hreq, Option.getD_some]
-  simp only [featuresUsed, List.mem_append] at hf
+  rw [requireNames_built]
+  simp only [structFeatures, List.mem_append] at hf
   rcases hf with ((((hf | hf) | hf) | hf) | hf) | hf
   · -- compressor
     simp only [strOf, hcomp] at hf
@@ -442,59 +607,288 @@ theorem build_rpmlib_valid (x : Ctx) (pre : Bool) : RpmlibDeclared (C06.hdrOf x)
     · simp only [List.mem_singleton] at hf; subst hf; exact b3
     · cases hf
 
+/-! ### the four features rpmbuild derives from the content of dependencies and scriptlets
+
+Since the fix "the builder declares the rpmlib() features a package uses through the content of its dependencies and scriptlets"
+`prepare_data` looks at the versions of all dependencies (`Bld.versionHas`), the names of the six kinds that may be rich
+(`Bld.usesRichDeps`) and the interpreter lists (`Bld.usesInterpArgs`) and pushes the missing requirement (`Bld.pushFeature`). -/
+
+/-- the dependency lists whose versions `haveCharInDep` scans, as `prepare_data` writes them (PROVIDE, REQUIRE, OBSOLETE, CONFLICT,
+SUGGEST, ENHANCE, RECOMMEND, SUPPLEMENT; the builder has no ORDER / TRIGGER entries) -/
+def evrDeps (c : Cfg) : List Dep :=
+  allProvides c ++ allRequires c ++ c.obsoletes ++ c.conflicts ++ c.suggests ++ c.enhances ++ allRecommends c ++ c.supplements
+
+/-- the dependency lists `haveRichDep` scans -/
+def richDeps (c : Cfg) : List Dep :=
+  allRequires c ++ allRecommends c ++ c.suggests ++ c.supplements ++ c.enhances ++ c.conflicts
+
+/-- the nine scriptlets in the order of `progTags` -/
+def scriptletsOf (c : Cfg) : List (Option Scriptlet) :=
+  [c.preIn, c.postIn, c.preUn, c.postUn, c.verify, c.preTrans, c.postTrans, c.preUntrans, c.postUntrans]
+
+theorem not_mem_slots_5036 : 5036 ∉ slots.map (·.1) := by decide +kernel
+theorem not_mem_slots_1067 : 1067 ∉ slots.map (·.1) := by decide +kernel
+
+/-- `haveCharInDep` on the built header, in terms of the configuration -/
+theorem evrHasChar_built (x : Ctx) (ch : UInt8) :
+    evrHasChar (C06.hdrOf x) ch = (evrDeps x.c).any fun d => d.version.contains ch := by
+  have h1 := strsAt_depVersions (find_slot_at (x := x) 39 (depVersions (fun x => allProvides x.c) true) rfl (t := 1113) rfl)
+  have h2 := strsAt_depVersions (find_slot_at (x := x) 53 (depVersions (fun x => allRequires x.c) false) rfl (t := 1050) rfl)
+  have h3 := strsAt_depVersions (find_slot_at (x := x) 50 (depVersions (fun x => x.c.obsoletes) false) rfl (t := 1115) rfl)
+  have h4 := strsAt_depVersions (find_slot_at (x := x) 56 (depVersions (fun x => x.c.conflicts) false) rfl (t := 1055) rfl)
+  have h5 : strsAt (C06.hdrOf x) 5036 = [] := strsAt_none (find_no_slot not_mem_slots_5036 (by decide))
+  have h6 : strsAt (C06.hdrOf x) 1067 = [] := strsAt_none (find_no_slot not_mem_slots_1067 (by decide))
+  have h7 := strsAt_depVersions (find_slot_at (x := x) 62 (depVersions (fun x => x.c.suggests) false) rfl (t := 5050) rfl)
+  have h8 := strsAt_depVersions (find_slot_at (x := x) 65 (depVersions (fun x => x.c.enhances) false) rfl (t := 5056) rfl)
+  have h9 := strsAt_depVersions (find_slot_at (x := x) 59 (depVersions (fun x => allRecommends x.c) false) rfl (t := 5047) rfl)
+  have h10 := strsAt_depVersions (find_slot_at (x := x) 68 (depVersions (fun x => x.c.supplements) false) rfl (t := 5053) rfl)
+  simp only [evrHasChar, depEvrTags, List.any_cons, List.any_nil, Bool.or_false, h1, h2, h3, h4, h5, h6, h7, h8, h9, h10,
+    List.any_map, evrDeps, List.any_append, Bool.or_assoc, Function.comp_def, Bool.false_or]
+
+/-- `haveRichDep` on the built header -/
+theorem hasRichDep_built (x : Ctx) : hasRichDep (C06.hdrOf x) = (richDeps x.c).any fun d => d.name.head? == some 40 := by
+  have h1 := strsAt_depNames (find_slot_at (x := x) 52 (depNames (fun x => allRequires x.c) false) rfl (t := 1049) rfl)
+  have h2 := strsAt_depNames (find_slot_at (x := x) 58 (depNames (fun x => allRecommends x.c) false) rfl (t := 5046) rfl)
+  have h3 := strsAt_depNames (find_slot_at (x := x) 61 (depNames (fun x => x.c.suggests) false) rfl (t := 5049) rfl)
+  have h4 := strsAt_depNames (find_slot_at (x := x) 67 (depNames (fun x => x.c.supplements) false) rfl (t := 5052) rfl)
+  have h5 := strsAt_depNames (find_slot_at (x := x) 64 (depNames (fun x => x.c.enhances) false) rfl (t := 5055) rfl)
+  have h6 := strsAt_depNames (find_slot_at (x := x) 55 (depNames (fun x => x.c.conflicts) false) rfl (t := 1054) rfl)
+  simp only [hasRichDep, richNameTags, List.any_cons, List.any_nil, Bool.or_false, h1, h2, h3, h4, h5, h6,
+    List.any_map, richDeps, List.any_append, Bool.or_assoc, Function.comp_def]
+
+/-- the interpreter-with-arguments test on the built header -/
+theorem hasInterpArgs_built (x : Ctx) :
+    hasInterpArgs (C06.hdrOf x) = (scriptletsOf x.c).any fun s => decide (1 < (progOf s).length) := by
+  have h1 := strsAt_scrProg (find_slot_at (x := x) 72 (scrProg (·.preIn)) rfl (t := 1085) rfl)
+  have h2 := strsAt_scrProg (find_slot_at (x := x) 75 (scrProg (·.postIn)) rfl (t := 1086) rfl)
+  have h3 := strsAt_scrProg (find_slot_at (x := x) 78 (scrProg (·.preUn)) rfl (t := 1087) rfl)
+  have h4 := strsAt_scrProg (find_slot_at (x := x) 81 (scrProg (·.postUn)) rfl (t := 1088) rfl)
+  have h5 := strsAt_scrProg (find_slot_at (x := x) 96 (scrProg (·.verify)) rfl (t := 1091) rfl)
+  have h6 := strsAt_scrProg (find_slot_at (x := x) 84 (scrProg (·.preTrans)) rfl (t := 1153) rfl)
+  have h7 := strsAt_scrProg (find_slot_at (x := x) 87 (scrProg (·.postTrans)) rfl (t := 1154) rfl)
+  have h8 := strsAt_scrProg (find_slot_at (x := x) 90 (scrProg (·.preUntrans)) rfl (t := 5105) rfl)
+  have h9 := strsAt_scrProg (find_slot_at (x := x) 93 (scrProg (·.postUntrans)) rfl (t := 5106) rfl)
+  simp only [hasInterpArgs, progTags, List.any_cons, List.any_nil, Bool.or_false, h1, h2, h3, h4, h5, h6, h7, h8, h9, scriptletsOf]
+
+/-! #### `pushFeature` -/
+
+theorem subset_pushFeature (reqs : List Dep) (u : Bool) (f v : Bytes) : ∀ d ∈ reqs, d ∈ pushFeature reqs u f v := by
+  intro d hd; unfold pushFeature; split
+  · exact List.mem_append_left _ hd
+  · exact hd
+
+/-- after its turn a used feature is required by name — pushed now, or already there -/
+theorem name_mem_pushFeature (reqs : List Dep) (f v : Bytes) :
+    rpmlibName f ∈ (pushFeature reqs true f v).map (·.name) := by
+  unfold pushFeature
+  by_cases h : (reqs.any fun d => d.name == (rpmlib f v).name) = true
+  · simp only [h, Bool.not_true, Bool.and_false, Bool.false_eq_true, if_false]
+    obtain ⟨d, hd, he⟩ := List.any_eq_true.mp h
+    rw [rpmlibName_eq] at he
+    exact List.mem_map.mpr ⟨d, hd, by simpa using he⟩
+  · simp only [h, Bool.not_false, Bool.and_true, if_true]
+    exact List.mem_map.mpr ⟨rpmlib f v, by simp, rfl⟩
+
+theorem mem_pushFeature {reqs : List Dep} {u : Bool} {f v : Bytes} {d : Dep} (h : d ∈ pushFeature reqs u f v) :
+    d ∈ reqs ∨ d = rpmlib f v := by
+  unfold pushFeature at h; split at h
+  · rcases List.mem_append.mp h with h | h
+    · exact Or.inl h
+    · exact Or.inr (by simpa using h)
+  · exact Or.inl h
+
+theorem names_mono_pushFeature {reqs : List Dep} {n : Bytes} (h : n ∈ reqs.map (·.name)) (u : Bool) (f v : Bytes) :
+    n ∈ (pushFeature reqs u f v).map (·.name) := by
+  obtain ⟨d, hd, rfl⟩ := List.mem_map.mp h
+  exact List.mem_map_of_mem (subset_pushFeature reqs u f v d hd)
+
+/-- the four requirements the content loop can push -/
+def contentDeps : List Dep :=
+  [rpmlib fTildeInVersions [52, 46, 49, 48, 46, 48, 45, 49], rpmlib fCaretInVersions [52, 46, 49, 53, 46, 48, 45, 49],
+   rpmlib fRichDependencies [52, 46, 49, 50, 46, 48, 45, 49], rpmlib fScriptletInterpreterArgs [52, 46, 48, 46, 51, 45, 49]]
+
+/-- every requirement is the caller's, a structural rpmlib() one, or one of the four content ones -/
+theorem allRequires_cases {c : Cfg} {d : Dep} (h : d ∈ allRequires c) : d ∈ baseRequires c ∨ d ∈ contentDeps := by
+  unfold allRequires at h
+  rcases mem_pushFeature h with h | rfl
+  · rcases mem_pushFeature h with h | rfl
+    · rcases mem_pushFeature h with h | rfl
+      · rcases mem_pushFeature h with h | rfl
+        · exact Or.inl h
+        · exact Or.inr (by decide)
+      · exact Or.inr (by decide)
+    · exact Or.inr (by decide)
+  · exact Or.inr (by decide)
+
+/-- the content requirements themselves use none of the features: versions without `~` / `^`, names not starting with "(" -/
+theorem contentDeps_clean : ∀ d ∈ contentDeps, 126 ∉ d.version ∧ 94 ∉ d.version ∧ d.name.head? ≠ some 40 := by decide
+
+theorem allRecommends_cases {c : Cfg} {d : Dep} (h : d ∈ allRecommends c) :
+    d ∈ c.recommends ∨ (d.version = [] ∧ d.name.head? ≠ some 40) := by
+  simp only [allRecommends, List.mem_append, List.mem_map] at h
+  rcases h with (h | ⟨u, _, rfl⟩) | ⟨g, _, rfl⟩
+  · exact Or.inl h
+  · exact Or.inr ⟨rfl, by simp [depUser]⟩
+  · exact Or.inr ⟨rfl, by simp [depGroup]⟩
+
+/-! #### rpm's three tests on the built header imply the builder's own tests -/
+
+theorem versionHas_of_header {x : Ctx} {ch : UInt8} (hch : ch = 126 ∨ ch = 94) (h : evrHasChar (C06.hdrOf x) ch = true) :
+    versionHas x.c ch = true := by
+  rw [evrHasChar_built, List.any_eq_true] at h
+  obtain ⟨d, hd, hc⟩ := h
+  have hc' : ch ∈ d.version := by simpa using hc
+  unfold versionHas
+  rw [List.any_eq_true]
+  refine ⟨d, ?_, hc⟩
+  simp only [evrDeps, List.mem_append] at hd
+  simp only [List.mem_append]
+  rcases hd with ((((((hd | hd) | hd) | hd) | hd) | hd) | hd) | hd
+  · exact Or.inl (Or.inl (Or.inl (Or.inl (Or.inl (Or.inl (Or.inl hd))))))
+  · rcases allRequires_cases hd with hb | hcd
+    · exact Or.inl (Or.inl (Or.inl (Or.inl (Or.inl (Or.inl (Or.inr hb))))))
+    · have := contentDeps_clean d hcd
+      rcases hch with rfl | rfl
+      · exact absurd hc' this.1
+      · exact absurd hc' this.2.1
+  · exact Or.inl (Or.inl (Or.inl (Or.inl (Or.inl (Or.inr hd)))))
+  · exact Or.inl (Or.inl (Or.inl (Or.inl (Or.inr hd))))
+  · exact Or.inl (Or.inl (Or.inr hd))
+  · exact Or.inl (Or.inr hd)
+  · rcases allRecommends_cases hd with hr | ⟨hv, _⟩
+    · exact Or.inl (Or.inl (Or.inl (Or.inr hr)))
+    · rw [hv] at hc'; cases hc'
+  · exact Or.inr hd
+
+theorem usesRichDeps_of_header {x : Ctx} (h : hasRichDep (C06.hdrOf x) = true) : usesRichDeps x.c = true := by
+  rw [hasRichDep_built, List.any_eq_true] at h
+  obtain ⟨d, hd, hc⟩ := h
+  have hc' : d.name.head? = some 40 := by simpa using hc
+  unfold usesRichDeps
+  rw [List.any_eq_true]
+  refine ⟨d, ?_, hc⟩
+  simp only [richDeps, List.mem_append] at hd
+  simp only [List.mem_append]
+  rcases hd with ((((hd | hd) | hd) | hd) | hd) | hd
+  · rcases allRequires_cases hd with hb | hcd
+    · exact Or.inl (Or.inl (Or.inl (Or.inl (Or.inl hb))))
+    · exact absurd hc' (contentDeps_clean d hcd).2.2
+  · rcases allRecommends_cases hd with hr | ⟨_, hn⟩
+    · exact Or.inl (Or.inl (Or.inl (Or.inl (Or.inr hr))))
+    · exact absurd hc' hn
+  · exact Or.inl (Or.inl (Or.inl (Or.inr hd)))
+  · exact Or.inl (Or.inl (Or.inr hd))
+  · exact Or.inl (Or.inr hd)
+  · exact Or.inr hd
+
+theorem usesInterpArgs_of_header {x : Ctx} (h : hasInterpArgs (C06.hdrOf x) = true) : usesInterpArgs x.c = true := by
+  rw [hasInterpArgs_built, List.any_eq_true] at h
+  obtain ⟨s, hs, hc⟩ := h
+  unfold usesInterpArgs
+  rw [List.any_eq_true]
+  refine ⟨s, ?_, ?_⟩
+  · simp only [scriptletsOf, List.mem_cons, List.mem_nil_iff, or_false] at hs
+    simp only [List.mem_cons, List.mem_nil_iff, or_false]
+    rcases hs with h | h | h | h | h | h | h | h | h <;> simp [h]
+  · unfold progOf at hc
+    cases hb : s.bind (·.prog) with
+    | none => simp [hb] at hc
+    | some p => simpa [hb] using hc
+
+/-- a used content feature is required by name in `allRequires` -/
+theorem content_declared (c : Cfg) :
+    (versionHas c 126 = true → rpmlibName fTildeInVersions ∈ (allRequires c).map (·.name)) ∧
+    (versionHas c 94 = true → rpmlibName fCaretInVersions ∈ (allRequires c).map (·.name)) ∧
+    (usesRichDeps c = true → rpmlibName fRichDependencies ∈ (allRequires c).map (·.name)) ∧
+    (usesInterpArgs c = true → rpmlibName fScriptletInterpreterArgs ∈ (allRequires c).map (·.name)) := by
+  refine ⟨?_, ?_, ?_, ?_⟩
+  · intro h; unfold allRequires; rw [h]
+    exact names_mono_pushFeature (names_mono_pushFeature (names_mono_pushFeature (name_mem_pushFeature _ _ _) _ _ _) _ _ _) _ _ _
+  · intro h; unfold allRequires; rw [h]
+    exact names_mono_pushFeature (names_mono_pushFeature (name_mem_pushFeature _ _ _) _ _ _) _ _ _
+  · intro h; unfold allRequires; rw [h]
+    exact names_mono_pushFeature (name_mem_pushFeature _ _ _) _ _ _
+  · intro h; unfold allRequires; rw [h]
+    exact name_mem_pushFeature _ _ _
+
+/-- **the built header declares every rpmlib() feature it uses** — all thirteen, for EVERY configuration (the four content
+features since the fix of builder.rs: before it this statement was false, see the history of this file) -/
+theorem build_rpmlib_valid (x : Ctx) (pre : Bool) : RpmlibDeclared (C06.hdrOf x) pre := by
+  intro f hf
+  simp only [featuresUsed, List.mem_append] at hf
+  rcases hf with hf | hf
+  · exact build_struct_features_declared x pre f hf
+  · obtain ⟨h1, h2, h3, h4⟩ := content_declared x.c
+    rw [requireNames_built]
+    simp only [contentFeatures, List.mem_append] at hf
+    rcases hf with ((hf | hf) | hf) | hf
+    · split at hf
+      · rename_i hu
+        simp only [List.mem_singleton] at hf; subst hf
+        exact h1 (versionHas_of_header (Or.inl rfl) hu)
+      · cases hf
+    · split at hf
+      · rename_i hu
+        simp only [List.mem_singleton] at hf; subst hf
+        exact h2 (versionHas_of_header (Or.inr rfl) hu)
+      · cases hf
+    · split at hf
+      · rename_i hu
+        simp only [List.mem_singleton] at hf; subst hf
+        exact h3 (usesRichDeps_of_header hu)
+      · cases hf
+    · split at hf
+      · rename_i hu
+        simp only [List.mem_singleton] at hf; subst hf
+        exact h4 (usesInterpArgs_of_header hu)
+      · cases hf
+
 
 /-! ## payload: the archive the builder writes -/
 
 theorem trailerName_eq : cpioTrailerName = trailerName := rfl
 
-theorem cpioCheck_trailer (sizes : List Nat) (i : Nat) (rest : Bytes) : cpioCheck sizes i [] (trailer ++ rest) = none := by
-  have h := readerNew_writeEntry sizes trailer_wf (c := []) (by decide) none (by decide) rest
-  simp only [cpioCheck, trailer, h, entryOf]
+theorem cpioCheck_trailer (i : Nat) (rest : Bytes) : cpioCheck i [] (trailer ++ rest) = none := by
+  have h := readEntry_writeEntry trailer_wf (c := []) (by decide) none (by decide) rest
+  simp only [cpioCheck, trailer, h]
   rfl
 
 /-- what the validator expects for an archive entry -/
 def expOfEntry (x : EntryMeta × Bytes) : FileExp := ⟨x.1.name, x.2.length, x.1.mode⟩
 
-/-- **standard archives**: the validator's cpio walk accepts `archiveOf es` for the file list read off `es` -/
-theorem cpioCheck_archiveOf (sizes : List Nat) (es : List (EntryMeta × Bytes)) (hes : ∀ x ∈ es, EntryOK x) (rest : Bytes) :
-    ∀ i, cpioCheck sizes i (es.map expOfEntry) (archiveOf es ++ rest) = none := by
+/-- **standard archives**: the validator's cpio walk (the Spec's own newc reader) accepts `archiveOf es` for the file list read off `es` -/
+theorem cpioCheck_archiveOf (es : List (EntryMeta × Bytes)) (hes : ∀ x ∈ es, EntryOK x) (rest : Bytes) :
+    ∀ i, cpioCheck i (es.map expOfEntry) (archiveOf es ++ rest) = none := by
   induction es with
-  | nil => intro i; exact cpioCheck_trailer sizes i rest
+  | nil => intro i; exact cpioCheck_trailer i rest
   | cons x t ih =>
     intro i
     obtain ⟨m, c⟩ := x
     obtain ⟨hw, _, hl⟩ := hes (m, c) (by simp)
-    simp only [archiveOf, List.append_assoc, List.map_cons, cpioCheck, readerNew_writeEntry sizes hw hl none (by decide),
-      expOfEntry, entryOf, ne_eq, not_true_eq_false, if_false, or_self, readData_append]
+    simp only [archiveOf, List.append_assoc, List.map_cons, cpioCheck, readEntry_writeEntry hw hl none (by decide),
+      expOfEntry, ne_eq, not_true_eq_false, if_false, or_self, skipData_append]
     exact ih (fun x hx => hes x (by simp [hx])) (i + 1)
 
-/-- **large-file archives**: stripped entries carrying the indices `k, k+1, …` -/
-theorem cpioCheck_stripped (sizes : List Nat) (rest : Bytes) (cs : List Bytes) :
+/-- **large-file archives**: stripped entries carrying the indices `k, k+1, …`, data of the header's sizes -/
+theorem cpioCheck_stripped (rest : Bytes) (cs : List Bytes) :
     ∀ (fs : List FileExp) (k : Nat), fs.map (·.size) = cs.map List.length → k + cs.length ≤ 4294967295 →
-      (∀ j (h : j < cs.length), sizes[k + j]? = some cs[j].length) →
-      cpioCheck sizes k fs (archiveStrippedFrom k cs ++ rest) = none := by
+      cpioCheck k fs (archiveStrippedFrom k cs ++ rest) = none := by
   induction cs with
   | nil =>
-    intro fs k hfs _ _
+    intro fs k hfs _
     have : fs = [] := by simpa using hfs
     subst this
-    exact cpioCheck_trailer sizes k rest
+    exact cpioCheck_trailer k rest
   | cons c t ih =>
-    intro fs k hfs hk hs
+    intro fs k hfs hk
     cases fs with
     | nil => simp at hfs
     | cons f fs' =>
       simp only [List.map_cons, List.cons.injEq] at hfs
-      have h0 : sizes[k]? = some c.length := by
-        have := hs 0 (by simp)
-        simpa only [Nat.add_zero, List.getElem_cons_zero] using this
-      have hk' : k < 4294967295 := by simp at hk; omega
-      have ih' := ih fs' (k + 1) hfs.2 (by simp at hk; omega) (fun j h => by
-        have := hs (j + 1) (by simp; omega)
-        simp only [List.getElem_cons_succ] at this
-        rw [show k + 1 + j = k + (j + 1) by omega]; exact this)
-      simp only [archiveStrippedFrom, List.append_assoc, cpioCheck, readerNew_strippedHeader sizes hk' h0,
-        strippedDataPad_eq, readData_append, ne_eq, not_true_eq_false, if_false, hfs.1]
+      have hk' : k < 4294967296 := by simp at hk; omega
+      have ih' := ih fs' (k + 1) hfs.2 (by simp at hk; omega)
+      simp only [archiveStrippedFrom, List.append_assoc, cpioCheck, readEntry_strippedHeader hk',
+        strippedDataPad_eq, ne_eq, not_true_eq_false, if_false, hfs.1, skipData_append]
       exact ih'
 
 
@@ -563,7 +957,7 @@ theorem payload_valid_std (x : Ctx) (hd : DirsOk x.c) (fes : List (FileE × Byte
     (rest : Bytes) : CpioValid (C06.hdrOf x) (builderArchive uid gid (fes.map toFileIn) ++ rest) := by
   have hes := builderEntriesFrom_ok hu hg (fes.map toFileIn)
     (fun f hfm => by obtain ⟨p, hp, rfl⟩ := List.mem_map.mp hfm; exact (hf p hp).ok) 1 (by simp; omega)
-  have h := cpioCheck_archiveOf ((x.c.files.map expOf).map (·.size)) _ hes rest 0
+  have h := cpioCheck_archiveOf _ hes rest 0
   rw [builderEntriesFrom_exp uid gid fes hf 1] at h
   simp only [CpioValid, cpioViolation, headerFiles_built x hd, builderArchive]
   have e : fes.map (fun p => expOf p.1) = (fes.map (·.1)).map expOf := by rw [List.map_map]; rfl
@@ -581,13 +975,9 @@ theorem payload_valid_large (x : Ctx) (hd : DirsOk x.c) (fes : List (FileE × By
     intro p hp
     simp only [Function.comp, expOf]
     exact hf p hp
-  have h := cpioCheck_stripped ((x.c.files.map expOf).map (·.size)) rest (fes.map (·.2)) (x.c.files.map expOf) 0 hsz
-    (by simpa using hn) (fun j hj => by
-      rw [hsz]; simp only [Nat.zero_add, List.getElem?_map, List.getElem_map]
-      simp only [List.length_map] at hj
-      simp [hj])
-  simp only [CpioValid, cpioViolation, headerFiles_built x hd, builderArchiveLarge, archiveStripped, List.map_map]
-  simp only [List.map_map] at h
+  have h := cpioCheck_stripped rest (fes.map (·.2)) (x.c.files.map expOf) 0 hsz (by simpa using hn)
+  have e : (fes.map toFileIn).map (·.content) = fes.map (·.2) := by rw [List.map_map]; rfl
+  simp only [CpioValid, cpioViolation, headerFiles_built x hd, builderArchiveLarge, archiveStripped, e]
   exact h
 
 
@@ -671,8 +1061,8 @@ structure CfgOk (x : Ctx) (fes : List (FileE × Bytes)) : Prop where
 
 /-- **build_valid**: for every valid configuration and every sign / clear history (the signature header
 is whatever `SignatureHeaderBuilder` last built), the written package re-parses to the built value and
-satisfies every rule of `PackageValid` — lead, both headers, signature padding, compressor magic, rpmlib()
-features, cpio archive. The codec enters only through `CodecMagic`. -/
+satisfies every rule of `PackageValid` — lead, both headers, the signature header's limits, tag types, signature padding,
+compressor magic, PAYLOADFLAGS, rpmlib() features (all thirteen), cpio archive. The codec enters only through `CodecMagic`. -/
 theorem build_valid {x : Ctx} {fes : List (FileE × Bytes)} (ok : CfgOk x fes)
     {sigs : List (Nat × Bytes × Bytes)} {sha : Bytes} (sok : SigsOk sigs sha)
     {uid gid : Nat} (hu : uid < 4294967296) (hg : gid < 4294967296)
@@ -691,7 +1081,8 @@ theorem build_valid {x : Ctx} {fes : List (FileE × Bytes)} (ok : CfgOk x fes)
       simpa [builderArchiveLarge, archiveStripped] using this
     · have := archiveOf_magic (builderEntriesFrom uid gid 1 (fes.map toFileIn)) []
       simpa [builderArchive] using this
-  refine ⟨lead_valid _, sign_clear_valid sok, build_header_valid ok.valid ok.dirs ok.size, ?_, ?_, ?_, ?_⟩
+  refine ⟨lead_valid _, sign_clear_valid sok, sig_limits_valid sok, build_header_valid ok.valid ok.dirs ok.size,
+    build_tagtypes_valid x, ?_, ?_, build_flags_valid x, ?_, ?_⟩
   · exact sigPadding_written p (C06.leadNew_wf _) (by
       show HeaderWF (signatureHeader sigs (some sha)); rw [signatureHeader_eq]; exact fromEntries_wf srec)
   · exact compressor_magic_valid x harch hc
@@ -740,8 +1131,32 @@ theorem history_valid (p : Package) (bytes0 arch : Bytes) (v : PackageValid byte
   obtain ⟨sv, st⟩ := sigRecs_valid sok
   have srec : RecsOk (sigRecs (ops.getLast hne).sigs (ops.getLast hne).sha) SigTag.HEADER_SIGNATURES :=
     recsOk_of_valid sv st (by decide)
-  refine ⟨by rw [hl]; exact v.lead, by rw [hsig]; exact sign_clear_valid sok, by rw [hh]; exact v.hdr, ?_,
-    by rw [hh, hc]; exact v.magic, by rw [hh]; exact v.rpmlib, by rw [hh]; exact v.cpio⟩
+  refine ⟨by rw [hl]; exact v.lead, by rw [hsig]; exact sign_clear_valid sok, by rw [hsig]; exact sig_limits_valid sok,
+    by rw [hh]; exact v.hdr, by rw [hh]; exact v.tagtypes, ?_, by rw [hh, hc]; exact v.magic, by rw [hh]; exact v.flags,
+    by rw [hh]; exact v.rpmlib, by rw [hh]; exact v.cpio⟩
+  exact sigPadding_written _ (by rw [hl]; exact wl) (by rw [hsig, signatureHeader_eq]; exact fromEntries_wf srec)
+
+/-- **history_foreign_valid**: the same for the weaker archive-vs-header rules rpm guarantees for its own packages (`ForeignValid`:
+%ghost files absent from the archive, hard-link sets, source packages without the "./" prefix) — a package rpm built stays
+`ForeignValid` under every non-empty history of `sign` / `clear_signatures` calls. Together with `history_valid` this covers
+"all sign / clear histories on built and foreign packages". -/
+theorem history_foreign_valid (p : Package) (bytes0 arch : Bytes) (v : ForeignValid bytes0 p arch) (wl : LeadWF p.md.lead)
+    (ops : List SigOp) (hne : ops ≠ []) (hok : ∀ o ∈ ops, SigsOk o.sigs o.sha) :
+    ForeignValid (writePackage (ops.foldl applySig p)) (ops.foldl applySig p) arch := by
+  have hsplit := List.dropLast_concat_getLast hne
+  obtain ⟨hl, hh, hc⟩ := foldl_applySig_rest ops p
+  have hsig : (ops.foldl applySig p).md.signature = signatureHeader (ops.getLast hne).sigs (some (ops.getLast hne).sha) := by
+    have : ((ops.dropLast ++ [ops.getLast hne]).foldl applySig p).md.signature =
+        signatureHeader (ops.getLast hne).sigs (some (ops.getLast hne).sha) := by
+      rw [List.foldl_append]; rfl
+    rw [hsplit] at this; exact this
+  have sok := hok _ (List.getLast_mem hne)
+  obtain ⟨sv, st⟩ := sigRecs_valid sok
+  have srec : RecsOk (sigRecs (ops.getLast hne).sigs (ops.getLast hne).sha) SigTag.HEADER_SIGNATURES :=
+    recsOk_of_valid sv st (by decide)
+  refine ⟨by rw [hl]; exact v.lead, by rw [hsig]; exact sign_clear_valid sok, by rw [hsig]; exact sig_limits_valid sok,
+    by rw [hh]; exact v.hdr, by rw [hh]; exact v.tagtypes, ?_, by rw [hh, hc]; exact v.magic, by rw [hh]; exact v.flags,
+    by rw [hh]; exact v.rpmlib, by rw [hh]; exact v.cpio⟩
   exact sigPadding_written _ (by rw [hl]; exact wl) (by rw [hsig, signatureHeader_eq]; exact fromEntries_wf srec)
 
 
@@ -761,7 +1176,7 @@ structure SigBytesOk (b64enc : Bytes → Bytes) (sigs : List Bytes) (sha : Bytes
 RPMSIGTAG_DSA (`legacyTagOf_range`) -/
 theorem sigsOk_of_build {pubAlg : Bytes → Option Nat} {b64enc : Bytes → Bytes} {sigs : List Bytes} {sha : Bytes}
     {tr : List (Nat × Bytes × Bytes)} (ok : SigBytesOk b64enc sigs sha) (ht : sigTriples pubAlg b64enc sigs = .ok tr)
-    (hsize : (signatureHeader tr (some sha)).store.length < 268435456) : SigsOk tr sha := by
+    (hsize : (signatureHeader tr (some sha)).store.length ≤ 67108864) : SigsOk tr sha := by
   obtain ⟨hmap, hall⟩ := sigTriples_spec b64enc sigs tr ht
   have hmem : ∀ x ∈ tr, x.2.1 ∈ sigs := fun x hx => by rw [← hmap]; exact List.mem_map_of_mem hx
   refine ⟨?_, ?_, ?_, ?_, ok.shaOk, hsize⟩
@@ -777,7 +1192,7 @@ theorem sigsOk_of_build {pubAlg : Bytes → Option Nat} {b64enc : Bytes → Byte
 `SignatureHeaderBuilder::build` returns is valid -/
 theorem sign_clear_valid_discharged {pubAlg : Bytes → Option Nat} {b64enc : Bytes → Bytes} {sigs : List Bytes} {sha : Bytes}
     {h : Header} (ok : SigBytesOk b64enc sigs sha) (hb : sigBuilderBuild pubAlg b64enc sigs (some sha) = .ok h)
-    (hsize : h.store.length < 268435456) : HeaderValid 62 h := by
+    (hsize : h.store.length ≤ 67108864) : HeaderValid 62 h := by
   obtain ⟨tr, ht, rfl⟩ := sigBuilderBuild_ok hb
   exact sign_clear_valid (sigsOk_of_build ok ht hsize)
 
@@ -838,16 +1253,16 @@ theorem sample_sigs_unsigned : SigsOk [] [97, 98] := by
   refine ⟨by simp, by simp, by simp, by decide, by decide, ?_⟩
   have h := fromEntries_store_le (sigRecs [] [97, 98]) SigTag.HEADER_SIGNATURES
   rw [signatureHeader_eq]
-  have : (List.map (fun r => r.2.enc.length + 7) (sigRecs [] [97, 98])).sum + 16 < 268435456 := by decide +kernel
-  exact Nat.lt_of_le_of_lt h this
+  have : (List.map (fun r => r.2.enc.length + 7) (sigRecs [] [97, 98])).sum + 16 ≤ 67108864 := by decide +kernel
+  exact Nat.le_trans h this
 
 theorem sample_sigs_signed : SigsOk [(SigTag.RPMSIGTAG_RSA, [1, 2, 3], [65, 81, 73, 68])] [97, 98] := by
   refine ⟨by simp, by simp, ?_, by decide, by decide, ?_⟩
   · intro s hs; simp only [List.mem_singleton] at hs; subst hs; decide
   · have h := fromEntries_store_le (sigRecs [(SigTag.RPMSIGTAG_RSA, [1, 2, 3], [65, 81, 73, 68])] [97, 98]) SigTag.HEADER_SIGNATURES
     rw [signatureHeader_eq]
-    have : (List.map (fun r => r.2.enc.length + 7) (sigRecs [(SigTag.RPMSIGTAG_RSA, [1, 2, 3], [65, 81, 73, 68])] [97, 98])).sum + 16 < 268435456 := by decide +kernel
-    exact Nat.lt_of_le_of_lt h this
+    have : (List.map (fun r => r.2.enc.length + 7) (sigRecs [(SigTag.RPMSIGTAG_RSA, [1, 2, 3], [65, 81, 73, 68])] [97, 98])).sum + 16 ≤ 67108864 := by decide +kernel
+    exact Nat.le_trans h this
 
 example : HeaderValid 62 (signatureHeader [(SigTag.RPMSIGTAG_RSA, [1, 2, 3], [65, 81, 73, 68])] (some [97, 98])) :=
   sign_clear_valid sample_sigs_signed
@@ -861,10 +1276,134 @@ example : ∀ o ∈ [(⟨[], [97, 98]⟩ : SigOp), ⟨[(SigTag.RPMSIGTAG_RSA, [1
   · exact sample_sigs_signed
 example : CodecMagic (.gzip 6) [0x1f, 0x8b, 8, 0] [] := ⟨[8, 0], rfl⟩
 /-- the validator accepts a concrete archive against concrete expectations, and rejects it when two entries are swapped -/
-example : cpioCheck [3, 0] 0 [⟨[46, 47, 97], 3, 33188⟩, ⟨[46, 47, 98], 0, 33261⟩]
+example : cpioCheck 0 [⟨[46, 47, 97], 3, 33188⟩, ⟨[46, 47, 98], 0, 33261⟩]
     (builderArchive 0 0 [⟨[46, 47, 97], 33188, [1, 2, 3]⟩, ⟨[46, 47, 98], 33261, []⟩]) = none := by decide +kernel
-example : cpioCheck [3, 0] 0 [⟨[46, 47, 97], 3, 33188⟩, ⟨[46, 47, 98], 0, 33261⟩]
-    (builderArchive 0 0 [⟨[46, 47, 98], 33261, []⟩, ⟨[46, 47, 97], 33188, [1, 2, 3]⟩]) = some .order := by decide +kernel
+example : cpioCheck 0 [⟨[46, 47, 97], 3, 33188⟩, ⟨[46, 47, 98], 0, 33261⟩]
+    (builderArchive 0 0 [⟨[46, 47, 98], 33261, []⟩, ⟨[46, 47, 97], 33188, [1, 2, 3]⟩]) = some CpioErr.order := by decide +kernel
+
+/-! ### the Spec's cpio reader is not rpm-rs' reader: a numeric field written `+000000b` -/
+
+/-- the trailer entry with its `namesize` field (bytes 94..101) written as "+000000b" instead of "0000000b" -/
+def trailerPlus : Bytes := Cpio.trailer.take 94 ++ [43, 48, 48, 48, 48, 48, 48, 98] ++ Cpio.trailer.drop 102
+
+/-- rpm-rs' reader (`u32::from_str_radix`, model `Cpio.readerNew`) takes the field for 11 and returns the trailer entry; the Spec's
+reader (eight hexadecimal digits, as the newc format defines a field) rejects the entry, and so does the archive rule -/
+theorem plus_field_rejected : (Cpio.readerNew [] trailerPlus).isOk = true ∧ readEntry trailerPlus = none ∧
+    cpioCheck 0 [] trailerPlus = some CpioErr.trailer ∧ cpioCheck 0 [] Cpio.trailer = none := by decide +kernel
+
+/-! ### tag types, signature-header limits -/
+
+/-- EPOCH written as a STRING, a FILEMODES array written as INT32: rejected; a lone interpreter written as STRING under a `*PROG`
+tag (what rpm itself does) and a tag rpm does not know: accepted -/
+example : tagTypeOk 1003 6 = false ∧ tagTypeOk 1030 4 = false ∧ tagTypeOk 1085 6 = true ∧ tagTypeOk 1085 8 = true ∧
+    tagTypeOk 7777 3 = true ∧ tagTypeOk 1004 6 = true := by decide
+example : ¬ TagTypesOk ⟨2, 0, [⟨63, .bin [], 0, 16⟩, ⟨1003, .str [49], 0, 1⟩], []⟩ := by decide
+/-- 33 entries / a store of 64 MiB + 1 in a signature header -/
+example : ¬ SigLimits ⟨33, 0, [], []⟩ ∧ ¬ SigLimits ⟨1, 67108865, [], []⟩ ∧ SigLimits ⟨32, 67108864, [], []⟩ := by decide
+example : SigLimits (signatureHeader [(SigTag.RPMSIGTAG_RSA, [1, 2, 3], [65, 81, 73, 68])] (some [97, 98])) :=
+  sig_limits_valid sample_sigs_signed
+example : TagTypesOk (C06.hdrOf C06.sampleCtx) ∧ PayloadFlagsOk (C06.hdrOf C06.sampleCtx) :=
+  ⟨build_tagtypes_valid _, build_flags_valid _⟩
+/-- PAYLOADFLAGS as a STRING_ARRAY -/
+example : ¬ PayloadFlagsOk ⟨2, 0, [⟨63, .bin [], 0, 16⟩, ⟨1126, .strArray [[57]], 0, 1⟩], []⟩ := by decide
+
+/-! ### rpmlib(): four variants of the sample each use one content feature — declared -/
+
+example : RpmlibDeclared (C06.hdrOf C06.sampleCtx) true := build_rpmlib_valid _ _
+
+/-- version "1~rc" -/
+def tildeCtx : Ctx := { C06.sampleCtx with c := { C06.sampleCfg with version := [49, 126, 114, 99] } }
+/-- version "1^git" -/
+def caretCtx : Ctx := { C06.sampleCtx with c := { C06.sampleCfg with version := [49, 94, 103, 105, 116] } }
+/-- requires "(a or b)" -/
+def richCtx : Ctx := { C06.sampleCtx with c := { C06.sampleCfg with requires := [⟨[40, 97, 32, 111, 114, 32, 98, 41], 0, []⟩] } }
+/-- `%pre -p "/b -x"` -/
+def argsCtx : Ctx := { C06.sampleCtx with c := { C06.sampleCfg with preIn := some ⟨[101], some 1, some [[47, 98], [45, 120]]⟩ } }
+
+example : versionHas tildeCtx.c 126 = true ∧ versionHas caretCtx.c 94 = true ∧ usesRichDeps richCtx.c = true ∧
+    usesInterpArgs argsCtx.c = true ∧ versionHas C06.sampleCfg 126 = false ∧ usesInterpArgs C06.sampleCfg = false := by decide +kernel
+example : rpmlibName fTildeInVersions ∈ (allRequires tildeCtx.c).map (·.name) ∧
+    rpmlibName fTildeInVersions ∉ (allRequires C06.sampleCfg).map (·.name) ∧
+    rpmlibName fScriptletInterpreterArgs ∈ (allRequires argsCtx.c).map (·.name) := by decide +kernel
+example : RpmlibDeclared (C06.hdrOf tildeCtx) true ∧ RpmlibDeclared (C06.hdrOf caretCtx) true ∧
+    RpmlibDeclared (C06.hdrOf richCtx) true ∧ RpmlibDeclared (C06.hdrOf argsCtx) true :=
+  ⟨build_rpmlib_valid _ _, build_rpmlib_valid _ _, build_rpmlib_valid _ _, build_rpmlib_valid _ _⟩
+/-- a requirement the caller wrote himself is not pushed a second time -/
+example : (allRequires { tildeCtx.c with requires := [rpmlib fTildeInVersions [52, 46, 49, 48, 46, 48, 45, 49]] }).length =
+    (baseRequires { tildeCtx.c with requires := [rpmlib fTildeInVersions [52, 46, 49, 48, 46, 48, 45, 49]] }).length := by decide +kernel
+/-- the rule names the driver reports -/
+example : contentRuleName fTildeInVersions = "rpmlib-tilde" ∧ contentRuleName fCaretInVersions = "rpmlib-caret" ∧
+    contentRuleName fRichDependencies = "rpmlib-rich" ∧ contentRuleName fScriptletInterpreterArgs = "rpmlib-interp-args" := by decide
+/-- a header that uses `~` without the requirement is still a violation of the spec (what the builder emitted before the fix) -/
+example : ¬ RpmlibDeclared ⟨3, 0, [⟨63, .bin [], 0, 16⟩, ⟨1049, .strArray [rpmlibName fCompressedFileNames], 0, 1⟩,
+    ⟨1113, .strArray [[49, 126, 114, 99]], 0, 1⟩], []⟩ false := by decide +kernel
+
+/-! ### `history_foreign_valid`: a package that is `ForeignValid` (a name-only main header, no files, the bare trailer as payload) -/
+
+def fRecs : List (Nat × IndexData) := [(1000, .str [97])]
+def fPkg : Package := ⟨⟨leadNew [97], signatureHeader [] (some [97, 98]), fromEntries fRecs 63⟩, Cpio.trailer⟩
+
+theorem fPkg_find_none {t : Nat} (h1 : 63 ≠ t) (h2 : 1000 ≠ t) : find (fromEntries fRecs 63) t = none := by
+  simp only [find, fromEntries_find_none h1 (recs := fRecs) (fun r hr => by
+    simp only [fRecs, List.mem_singleton] at hr; subst hr; exact h2), Option.map_none]
+
+theorem fPkg_foreign_valid : ForeignValid (writePackage fPkg) fPkg Cpio.trailer := by
+  have hsig : RecsOk (sigRecs [] [97, 98]) SigTag.HEADER_SIGNATURES :=
+    recsOk_of_valid (sigRecs_valid sample_sigs_unsigned).1 (sigRecs_valid sample_sigs_unsigned).2 (by decide)
+  have hrv : RecsValid fRecs 63 := by
+    refine ⟨by decide, by decide, by decide, ?_, by decide, ?_⟩
+    · intro r hr; simp only [fRecs, List.mem_singleton] at hr; subst hr; trivial
+    have h := fromEntries_store_le fRecs 63
+    have : (List.map (fun r => r.2.enc.length + 7) fRecs).sum + 16 < 268435456 := by decide
+    exact Nat.lt_of_le_of_lt h this
+  have hs : ∀ t, 63 ≠ t → 1000 ≠ t → strsAt (fromEntries fRecs 63) t = [] := fun t h1 h2 => strsAt_none (fPkg_find_none h1 h2)
+  have hfiles : headerFiles (fromEntries fRecs 63) = some [] := by
+    simp only [headerFiles, strsOf, fPkg_find_none (t := tBASENAMES) (by decide) (by decide)]
+  refine ⟨lead_valid _, sign_clear_valid sample_sigs_unsigned, sig_limits_valid sample_sigs_unsigned, fromEntries_valid hrv, ?_, ?_, ?_,
+    ?_, ?_, ?_⟩
+  · intro e he
+    have := body_fromEntries_mem he
+    simp only [fRecs, List.mem_singleton, Prod.mk.injEq] at this
+    rw [this.1, this.2]; decide
+  · exact sigPadding_written fPkg (C06.leadNew_wf _) (by
+      show HeaderWF (signatureHeader [] (some [97, 98])); rw [signatureHeader_eq]; exact fromEntries_wf hsig)
+  · show CompressorMagic (fromEntries fRecs 63) Cpio.trailer
+    unfold CompressorMagic
+    rw [fPkg_find_none (t := tPAYLOADCOMPRESSOR) (by decide) (by decide)]
+    exact Or.inr (by decide)
+  · show PayloadFlagsOk (fromEntries fRecs 63)
+    unfold PayloadFlagsOk
+    rw [fPkg_find_none (t := tPAYLOADFLAGS) (by decide) (by decide)]
+    trivial
+  · show RpmlibDeclared (fromEntries fRecs 63) (archivePrefixed Cpio.trailer)
+    have hpre : archivePrefixed Cpio.trailer = false := by decide +kernel
+    intro f hf
+    rw [hpre] at hf
+    simp only [featuresUsed, structFeatures, contentFeatures, strOf, evrHasChar, hasRichDep, hasInterpArgs, depEvrTags, richNameTags,
+      progTags, List.any_cons, List.any_nil,
+      fPkg_find_none (t := tPAYLOADCOMPRESSOR) (by decide) (by decide), fPkg_find_none (t := tFILECAPS) (by decide) (by decide),
+      fPkg_find_none (t := tLONGFILESIZES) (by decide) (by decide), fPkg_find_none (t := tBASENAMES) (by decide) (by decide),
+      fPkg_find_none (t := tFILEDIGESTALGO) (by decide) (by decide),
+      hs 1113 (by decide) (by decide), hs 1050 (by decide) (by decide), hs 1115 (by decide) (by decide), hs 1055 (by decide) (by decide),
+      hs 5036 (by decide) (by decide), hs 1067 (by decide) (by decide), hs 5050 (by decide) (by decide), hs 5056 (by decide) (by decide),
+      hs 5047 (by decide) (by decide), hs 5053 (by decide) (by decide), hs 1049 (by decide) (by decide), hs 5046 (by decide) (by decide),
+      hs 5049 (by decide) (by decide), hs 5052 (by decide) (by decide), hs 5055 (by decide) (by decide), hs 1054 (by decide) (by decide),
+      hs 1085 (by decide) (by decide), hs 1086 (by decide) (by decide), hs 1087 (by decide) (by decide), hs 1088 (by decide) (by decide),
+      hs 1091 (by decide) (by decide), hs 1153 (by decide) (by decide), hs 1154 (by decide) (by decide), hs 5105 (by decide) (by decide),
+      hs 5106 (by decide) (by decide)] at hf
+    simp at hf
+  · show cpioViolationForeign (fromEntries fRecs 63) Cpio.trailer = none
+    simp only [cpioViolationForeign, hfiles]
+    decide +kernel
+
+/-- the hypotheses of `history_foreign_valid` are satisfiable: clear, then sign -/
+example : ForeignValid (writePackage ([(⟨[], [97, 98]⟩ : SigOp), ⟨[(SigTag.RPMSIGTAG_RSA, [1, 2, 3], [65, 81, 73, 68])], [97, 98]⟩].foldl applySig fPkg))
+    ([(⟨[], [97, 98]⟩ : SigOp), ⟨[(SigTag.RPMSIGTAG_RSA, [1, 2, 3], [65, 81, 73, 68])], [97, 98]⟩].foldl applySig fPkg) Cpio.trailer :=
+  history_foreign_valid fPkg _ _ fPkg_foreign_valid (C06.leadNew_wf _) _ (by simp) (by
+    intro o ho; simp only [List.mem_cons, List.mem_nil_iff, or_false] at ho
+    rcases ho with rfl | rfl
+    · exact sample_sigs_unsigned
+    · exact sample_sigs_signed)
 
 
 end RpmVerif.C09
